@@ -528,7 +528,15 @@ class _Run:
                 return self.lib_call(name, allargs, e)
             if base == "copy" and "copy" not in env:
                 if f.attr == "deepcopy":
-                    return Val(imm=allargs[0].imm if allargs else False)
+                    out = Val(imm=allargs[0].imm if allargs else False)
+                    # a class of the package that customises copying decides what deepcopy returns for its instances
+                    for hook in ("__deepcopy__", "__reduce__", "__reduce_ex__", "__getstate__", "__copy__"):
+                        for hq, hf in self.ix.funcs.items():
+                            if hf.name == hook and hf.cls and allargs and not allargs[0].imm and hook in ("__deepcopy__",):
+                                out = out.join(self.apply_summary(hq, [allargs[0], FRESHV], e))
+                            elif hf.name == hook and hf.cls and allargs and not allargs[0].imm:
+                                out = out.join(Val([FRESH], allargs[0].below, allargs[0].below))
+                    return out
                 if f.attr == "copy":
                     return shallow(allargs[0]) if allargs else FRESHV
             # method on a package object resolved by class of `self`
